@@ -65,8 +65,9 @@ def sizes(tier):
 # ----------------------------------------------------------------------------------------------
 # plan generation
 # ----------------------------------------------------------------------------------------------
-DTYPES = {"img2d": ["float64", "float64", "float64", "float32", "int64"], "img3d": ["float64", "float64", "float32"], "img4d": ["float64"],
-          "cplx2d": ["complex128", "complex128", "complex64"], "cplx3d": ["complex128"], "vec_inc": ["float64"], "vec_pos": ["float64", "float64", "float32"], "mask2d": ["float64", "int64"],
+# ">f8" / ">f4": non-native byte order (arrays read from FITS files)
+DTYPES = {"img2d": ["float64", "float64", "float64", "float32", "int64", ">f8"], "img3d": ["float64", "float64", "float32", ">f4"], "img4d": ["float64"],
+          "cplx2d": ["complex128", "complex128", "complex64"], "cplx3d": ["complex128"], "vec_inc": ["float64", "float64", ">f8"], "vec_pos": ["float64", "float64", "float32", ">f8"], "mask2d": ["float64", "int64"],
           "pos": ["float64"], "sep": ["float64"], "slopes3": ["float64"], "frames": ["float64", "float32"], "cov32": ["float32"], "r32": ["float32"]}
 
 
